@@ -181,6 +181,46 @@ def hist_evtime(rng):
     return h.line()
 
 
+def hist_shrink(rng):
+    """a segment created under a large interval, interval then DEcreased, reopen while that segment is
+    the newest (or the oldest / in the middle); clock inside persisted range + TTL: its later part
+    still holds live data, so it must be neither hidden nor removed"""
+    zn, unit, base = pick(rng)
+    z = L.zone(zn)
+    big = rng.randint(2, 6)
+    small = rng.randint(1, big - 1)
+    u = L.unit_ns(unit)
+    ttl = (unit, rng.randint(1, 6)) if rng.random() < 0.8 else pick_ttl(rng, unit)
+    h = L.Hist("hist.shrink", zn, unit, big, ttl, base)
+    a, b = L.ref_cell(z, unit, big, base)
+    pos = rng.choice(["newest", "newest", "newest", "oldest", "middle"])
+    if pos in ("oldest", "middle"):
+        h.create(b + rng.randrange(0, big * u))
+    if pos == "middle":
+        h.create(a - 1 - rng.randrange(0, big * u))
+    h.create(a + rng.randrange(0, b - a))
+    h.add("interval %d" % small)
+    h.add("reopen")
+    cells = [(a, b)]
+    short_end = L.ref_cell(z, unit, 1, a)[0] + small * u
+    for _ in range(rng.randint(2, 4)):
+        r = rng.random()
+        if r < 0.6:
+            clock = rng.randrange(short_end + L.dur(ttl), b + L.dur(ttl))
+        elif r < 0.8:
+            clock = rng.choice([short_end, b]) + L.dur(ttl) + rng.choice([-1, 0, 1])
+        else:
+            clock = boundary_clock(rng, cells, ttl)
+        h.add("clock %d" % clock, clock)
+        h.select(a - big * u, b + 3 * big * u, 1, 1)
+        if rng.random() < 0.7:
+            h.add(rng.choice(["retention", "retention", "tick %d" % clock]), clock + 8 * DAY)
+            h.select(a - big * u, b + 3 * big * u, 1, 1)
+        if rng.random() < 0.2:
+            h.add("reopen")
+    return h.line()
+
+
 class C07(vlib.Spec):
     prop = "C07"
     lean_modules = ["Banyan.Props.C07", "Banyan.Tie.C07"]
@@ -210,7 +250,8 @@ class C07(vlib.Spec):
             "(also of the other unit), clock set to segment edge + TTL +-1 ns (and random / backwards), then SelectSegments (all flag "
             "combinations), the registered retention action, Tick, DeleteOldestSegment, reopen; hist.ttlupd: TTL changed through "
             "UpdateOptions between runs; hist.force: forced cleanup down to the last segment racing retention (both orders); "
-            "hist.evtime: tick event time ahead of / behind the clock; non-trivial = distinct history")
+            "hist.evtime: tick event time ahead of / behind the clock; hist.shrink: interval decrease + reopen with the long segment "
+            "newest/oldest/middle, clock inside its persisted range + TTL; non-trivial = distinct history")
 
     def cases(self, rng, n):
         out = []
@@ -220,8 +261,10 @@ class C07(vlib.Spec):
                 out.append(hist_ttl(rng))
             elif r < 7:
                 out.append(hist_ttlupd(rng))
-            elif r < 9:
+            elif r < 8:
                 out.append(hist_force(rng))
+            elif r < 9:
+                out.append(hist_shrink(rng))
             else:
                 out.append(hist_evtime(rng))
         return out
